@@ -184,6 +184,7 @@ def l2_chunk(args):
 
 # ------------------------------------------------------------------------------------------------ L3
 INT_TAG = {"A1": 7, "gB": 12, "gC": 3}      # integer-typed BAM tag values (XI:i:7), group names are their decimal strings
+UTF_TAG = {"A1": "\u03b11", "gB": "\u03b2-cell", "gC": "\u7d30\u80de"}      # non-ASCII tag values (XU:Z:...)
 
 
 def l3_world(mode, third_locus=False):
@@ -214,8 +215,11 @@ def l3_world(mode, third_locus=False):
             r["tags"] = {"RG": grp}
         if mode == "tagint" and grp:
             r["tags"] = {"XI": INT_TAG[grp]}
+        if mode == "tagutf" and grp:
+            r["tags"] = {"XU": UTF_TAG[grp]}
         reads.append(r)
-        groups[name] = (grp or "NA") if mode != "tagint" else (str(INT_TAG[grp]) if grp else "NA")
+        groups[name] = (grp or "NA") if mode not in ("tagint", "tagutf") else \
+            ((str(INT_TAG[grp]) if mode == "tagint" else UTF_TAG[grp]) if grp else "NA")
         iso[name] = t
     # a multi-mapped read: secondary alignment in an intergenic stretch of chr1 (first chromosome in BAM order), primary FSM of T4
     # on chr2 -> the retained locus is on chr2 and must be counted under the read's documented group gB
@@ -231,8 +235,11 @@ def l3_world(mode, third_locus=False):
     if mode == "tagint":
         mm1["tags"] = {"XI": INT_TAG["gB"]}
         mm2["tags"] = {"XI": INT_TAG["gB"]}
+    if mode == "tagutf":
+        mm1["tags"] = {"XU": UTF_TAG["gB"]}
+        mm2["tags"] = {"XU": UTF_TAG["gB"]}
     reads += [mm1, mm2]
-    groups[mm_name] = "gB" if mode != "tagint" else str(INT_TAG["gB"])
+    groups[mm_name] = {"tagint": str(INT_TAG["gB"]), "tagutf": UTF_TAG["gB"]}.get(mode, "gB")
     iso[mm_name] = "T4"
     w["reads"] = reads
     return w, groups, iso
@@ -288,6 +295,8 @@ def l3_case(args):
             argv += ["--read_group", "tag:RG"]
         elif mode == "tagint":
             argv += ["--read_group", "tag:XI"]
+        elif mode == "tagutf":
+            argv += ["--read_group", "tag:XU"]
         elif mode == "read_id":
             argv += ["--read_group", "read_id:_"]
         elif mode in ("file3", "file5"):
@@ -456,8 +465,9 @@ def run(ctx):
                           {"reads": list(reads), "order": list(order), "format": fmt})
     jobs = []
     universes = {"tag": ["A1", "gB", "gC", "NA"], "read_id": ["A1", "gB", "gC", "NA"], "file": ["A1", "gB", "gC", "NA"], "file_name": ["L1", "L2"],
-                 "tagint": ["12", "3", "7", "NA"], "file3": ["A1", "gB", "gC", "NA"], "file5": ["A1", "gB", "gC", "NA"]}
-    for mode in ("tag", "tagint", "read_id", "file", "file3", "file5", "file_name"):
+                 "tagint": ["12", "3", "7", "NA"], "file3": ["A1", "gB", "gC", "NA"], "file5": ["A1", "gB", "gC", "NA"],
+                 "tagutf": ["NA"] + sorted(UTF_TAG.values())}
+    for mode in ("tag", "tagint", "tagutf", "read_id", "file", "file3", "file5", "file_name"):
         for fmt in ("both",) if quick else ("matrix", "linear", "both"):
             orders = list(itertools.permutations(universes[mode]))
             if quick:
